@@ -841,6 +841,16 @@ pub fn parse_block_record(buf: &Vec<u8>) -> bool {
 pub fn parse_footer(buf: &Vec<u8>) -> bool {
     crate::tables::verif_access::Footer::try_from(buf).is_ok()
 }
+/// A footer with the given (offset, size) of the metaindex and index blocks is serialised and parsed again: the bytes and the four numbers read back.
+pub fn footer_roundtrip(metaindex: (u64, u64), index: (u64, u64)) -> Option<(Vec<u8>, Option<((u64, u64), (u64, u64))>)> {
+    use crate::tables::verif_access::{BlockHandle, Footer};
+    let f = Footer::new(BlockHandle::new(metaindex.0, metaindex.1), BlockHandle::new(index.0, index.1));
+    let bytes = Vec::<u8>::try_from(&f).ok()?;
+    let parsed = Footer::try_from(&bytes).ok().map(|p| {
+        ((p.get_metaindex_handle().get_offset(), p.get_metaindex_handle().get_size()), (p.get_index_handle().get_offset(), p.get_index_handle().get_size()))
+    });
+    Some((bytes, parsed))
+}
 /// See [`parse_block_record`].
 pub fn parse_block_handle(buf: &[u8]) -> bool {
     crate::tables::verif_access::BlockHandle::try_from(buf).is_ok()
